@@ -6,6 +6,15 @@ from stix2.utils import is_marking
 from stix2.versioning import new_version
 
 
+def _is_ancestor(ancestor, selector):
+    """
+    Determine whether the property addressed by ``ancestor`` contains the one
+    addressed by ``selector``, i.e. whether it is a proper prefix of it in
+    terms of path steps (not characters: "foo" is no ancestor of "foo_bar").
+    """
+    return selector.startswith(ancestor + ".")
+
+
 def get_markings(obj, selectors, inherited=False, descendants=False, marking_ref=True, lang=True):
     """
     Get all granular markings associated to with the properties.
@@ -44,8 +53,8 @@ def get_markings(obj, selectors, inherited=False, descendants=False, marking_ref
             for marking_selector in marking.get('selectors', []):
                 if any([
                     (user_selector == marking_selector),  # Catch explicit selectors.
-                    (user_selector.startswith(marking_selector) and inherited),  # Catch inherited selectors.
-                    (marking_selector.startswith(user_selector) and descendants),
+                    (_is_ancestor(marking_selector, user_selector) and inherited),  # Catch inherited selectors.
+                    (_is_ancestor(user_selector, marking_selector) and descendants),
                 ]):  # Catch descendants selectors
                     ref = marking.get('marking_ref')
                     lng = marking.get('lang')
@@ -290,8 +299,8 @@ def is_marked(obj, marking=None, selectors=None, inherited=False, descendants=Fa
 
                 if any([
                     (user_selector == marking_selector),  # Catch explicit selectors.
-                    (user_selector.startswith(marking_selector) and inherited),  # Catch inherited selectors.
-                    (marking_selector.startswith(user_selector) and descendants),
+                    (_is_ancestor(marking_selector, user_selector) and inherited),  # Catch inherited selectors.
+                    (_is_ancestor(user_selector, marking_selector) and descendants),
                 ]):  # Catch descendants selectors
                     marking_ref = granular_marking.get('marking_ref', '')
                     lang = granular_marking.get('lang', '')
